@@ -9,6 +9,7 @@ package wire
 
 import (
 	"encoding/binary"
+	"fmt"
 	"io"
 	"net"
 	"runtime"
@@ -85,6 +86,16 @@ type Stream struct {
 	// MaxSentinel > 0 bounds the sentinel bytes handed out; beyond it Read
 	// reports io.EOF (keeps a mis-framed giant read finite).
 	MaxSentinel int
+	// Dlv is the delivery pattern: how the bytes are cut into Read results.
+	// The zero value hands out as much as the caller asks for.
+	Dlv Delivery
+	// Reads counts the Read calls made with a non-empty buffer.
+	Reads int
+
+	lastZero bool // the previous Read returned (0, nil) because of Dlv.Zeros
+	dataRead int  // Read calls that were allowed to return data (index into Dlv.Sizes, per-call mode)
+	segIdx   int  // next segment size to use (segment mode)
+	segLeft  int  // bytes left in the current segment (segment mode)
 }
 
 // SpinPanic is the panic value used when a reader ignores EOF MaxEOFs times.
@@ -94,9 +105,26 @@ func (s *Stream) Read(p []byte) (int, error) {
 	if len(p) == 0 {
 		return 0, nil
 	}
+	k := s.Reads
+	s.Reads++
+	if s.Dlv.Zeros>>(uint(k)%64)&1 == 1 && !s.lastZero {
+		// "nothing happened" (allowed by io.Reader); never twice in a row
+		s.lastZero = true
+		return 0, nil
+	}
+	s.lastZero = false
+	if max := s.Dlv.next(s); max > 0 && len(p) > max {
+		p = p[:max]
+	}
 	if s.Consumed < len(s.Data) {
 		n := copy(p, s.Data[s.Consumed:])
 		s.Consumed += n
+		s.Dlv.took(s, n)
+		if s.Dlv.EOFWithData && !s.Sentinel && s.Consumed == len(s.Data) {
+			// the end of the stream is reported together with the last bytes
+			s.EOFs++
+			return n, io.EOF
+		}
 		return n, nil
 	}
 	if s.Sentinel {
@@ -105,6 +133,9 @@ func (s *Stream) Read(p []byte) (int, error) {
 			left := s.MaxSentinel - (s.Consumed - len(s.Data))
 			if left <= 0 {
 				s.EOFs++
+				if s.MaxEOFs > 0 && s.EOFs > s.MaxEOFs {
+					panic(SpinPanic)
+				}
 				return 0, io.EOF
 			}
 			if n > left {
@@ -115,6 +146,7 @@ func (s *Stream) Read(p []byte) (int, error) {
 			p[i] = SentinelByte
 		}
 		s.Consumed += n
+		s.Dlv.took(s, n)
 		return n, nil
 	}
 	s.EOFs++
@@ -143,6 +175,238 @@ func (c *Conn) RemoteAddr() net.Addr             { return addr{} }
 func (c *Conn) SetDeadline(time.Time) error      { return nil }
 func (c *Conn) SetReadDeadline(time.Time) error  { return nil }
 func (c *Conn) SetWriteDeadline(time.Time) error { return nil }
+
+// ---------------------------------------------------------------------------
+// delivery patterns as pure data
+
+// Delivery modes.
+const (
+	DeliverWhole    = 0 // a Read returns as much as the caller asks for
+	DeliverSegments = 1 // the stream is cut into segments of Sizes[0], Sizes[1], ... bytes (cycled); a Read never crosses a cut
+	DeliverPerCall  = 2 // the k-th data-returning Read returns at most Sizes[k mod len(Sizes)] bytes
+)
+
+// Delivery describes how a Stream hands the same bytes to its reader: the
+// decoders under test take an io.Reader (a tube, a unix socket, a relayed
+// connection), and io.Reader allows short reads, (0, nil) results and the end
+// of the stream being reported together with the last bytes. Every choice is
+// data so that a case replays; the zero value is the whole-buffer delivery.
+type Delivery struct {
+	Mode  int   `json:"mode,omitempty"`
+	Sizes []int `json:"sizes,omitempty"` // sizes < 1 count as 1; empty means {1}
+	// EOFWithData: on a closed stream the Read that hands out the last data
+	// byte also returns io.EOF (testing/iotest.DataErrReader; what
+	// tubes.Reliable.Read does once the peer's FIN was processed). In the
+	// round-trip tests a case with this flag reads from a closed stream
+	// instead of one that continues with sentinel bytes.
+	EOFWithData bool `json:"eofd,omitempty"`
+	// Zeros: bit (k mod 64) set = the k-th Read call returns (0, nil) without
+	// handing out anything, unless the previous call already did.
+	Zeros uint64 `json:"zeros,omitempty"`
+}
+
+// Whole reports whether d is the plain whole-buffer delivery.
+func (d Delivery) Whole() bool {
+	return d.Mode == DeliverWhole && !d.EOFWithData && d.Zeros == 0
+}
+
+func (d Delivery) size(i int) int {
+	if len(d.Sizes) == 0 {
+		return 1
+	}
+	if n := d.Sizes[i%len(d.Sizes)]; n >= 1 {
+		return n
+	}
+	return 1
+}
+
+// next returns the largest number of bytes the coming Read may hand out
+// (0 = no limit).
+func (d Delivery) next(s *Stream) int {
+	switch d.Mode {
+	case DeliverSegments:
+		if s.segLeft == 0 {
+			s.segLeft = d.size(s.segIdx)
+			s.segIdx++
+		}
+		return s.segLeft
+	case DeliverPerCall:
+		n := d.size(s.dataRead)
+		s.dataRead++
+		return n
+	}
+	return 0
+}
+
+func (d Delivery) took(s *Stream, n int) {
+	if d.Mode == DeliverSegments {
+		s.segLeft -= n
+	}
+}
+
+// Pieces cuts a message of n bytes into the piece lengths of d for fixtures
+// that cannot read from a Stream (a real tube: one Write per piece). Both
+// modes cut at the cumulative sizes. At most maxPieces pieces are returned:
+// the last one takes the remainder.
+func (d Delivery) Pieces(n, maxPieces int) []int {
+	if d.Mode == DeliverWhole || n == 0 {
+		return []int{n}
+	}
+	var out []int
+	for i := 0; n > 0; i++ {
+		k := d.size(i)
+		if k > n || len(out) == maxPieces-1 {
+			k = n
+		}
+		out = append(out, k)
+		n -= k
+	}
+	return out
+}
+
+// Name is the label of the delivery class.
+func (d Delivery) Name() string {
+	name := "whole"
+	switch d.Mode {
+	case DeliverSegments:
+		name = "segments"
+	case DeliverPerCall:
+		name = "per-call"
+	}
+	if d.Mode != DeliverWhole {
+		one := true
+		for i := range d.Sizes {
+			one = one && d.size(i) == 1
+		}
+		if one {
+			name = "one-byte"
+		}
+	}
+	return name
+}
+
+// Labels adds the delivery class of a case to its verdict.
+func (d Delivery) Labels(v *vlib.Verdict) {
+	v.Label("delivery=" + d.Name())
+	if d.EOFWithData {
+		v.Label("delivery:eof-with-last-data")
+	}
+	if d.Zeros != 0 {
+		v.Label("delivery:zero-reads")
+	}
+}
+
+var deliverySizes = []int{1, 1, 2, 3, 4, 5, 7, 8, 9, 16, 31, 32, 33, 64, 127, 255, 256, 257, 512, 4096}
+
+// DrawDelivery draws a delivery pattern: whole buffer (1 in 8), one byte at a
+// time (2 in 8), segments or per-call limits of 1..6 drawn sizes (5 in 8);
+// independently the end of the stream arrives with the last bytes (1 in 2)
+// and some Read calls return (0, nil) first (1 in 2).
+func DrawDelivery(t *rapid.T) Delivery {
+	var d Delivery
+	switch rapid.SampledFrom([]int{0, 1, 1, 2, 2, 2, 3, 3}).Draw(t, "dlv-kind") {
+	case 1:
+		d.Mode = rapid.SampledFrom([]int{DeliverSegments, DeliverPerCall}).Draw(t, "dlv-one")
+		d.Sizes = []int{1}
+	case 2, 3:
+		d.Mode = rapid.SampledFrom([]int{DeliverSegments, DeliverSegments, DeliverPerCall}).Draw(t, "dlv-mode")
+		n := rapid.SampledFrom([]int{1, 1, 2, 3, 4, 6}).Draw(t, "dlv-n")
+		for i := 0; i < n; i++ {
+			if rapid.Bool().Draw(t, "dlv-size-edge") {
+				d.Sizes = append(d.Sizes, rapid.SampledFrom(deliverySizes).Draw(t, "dlv-size"))
+			} else {
+				d.Sizes = append(d.Sizes, rapid.IntRange(1, 600).Draw(t, "dlv-size-any"))
+			}
+		}
+	}
+	d.EOFWithData = rapid.Bool().Draw(t, "dlv-eof")
+	switch rapid.SampledFrom([]int{0, 0, 0, 1, 2, 3}).Draw(t, "dlv-zeros") {
+	case 1:
+		d.Zeros = rapid.Uint64().Draw(t, "dlv-zero-mask")
+	case 2:
+		d.Zeros = 0x5555555555555555 // before every Read that returns something
+	case 3:
+		d.Zeros = 1 << uint(rapid.IntRange(0, 12).Draw(t, "dlv-zero-at"))
+	}
+	return d
+}
+
+// DeliveryFor derives a delivery pattern from a number (enumerations: the case
+// index; native fuzzing: a hash of the input). It cycles through one byte at a
+// time, short segments, per-call limits, the plain delivery with the end of the
+// stream attached to the last bytes, and (0, nil) results.
+func DeliveryFor(i uint64) Delivery {
+	table := SweepDeliveries()
+	return table[i%uint64(len(table))]
+}
+
+// SweepDeliveries is the fixed table behind DeliveryFor (for enumerations that
+// can afford every entry per case).
+func SweepDeliveries() []Delivery {
+	return []Delivery{
+		{Mode: DeliverPerCall, Sizes: []int{1}},
+		{Mode: DeliverSegments, Sizes: []int{2, 1, 3}, EOFWithData: true},
+		{Mode: DeliverWhole, EOFWithData: true},
+		{Mode: DeliverSegments, Sizes: []int{1}, Zeros: 0x5555555555555555},
+		{Mode: DeliverPerCall, Sizes: []int{3, 1, 64}, Zeros: 0x9249249249249249},
+		{Mode: DeliverSegments, Sizes: []int{255, 1, 256}, EOFWithData: true, Zeros: 2},
+		{Mode: DeliverSegments, Sizes: []int{7}},
+		{Mode: DeliverPerCall, Sizes: []int{1}, EOFWithData: true, Zeros: 0xAAAAAAAAAAAAAAAA},
+	}
+}
+
+// Hash64 is FNV-1a over b (DeliveryFor argument of the native fuzz targets).
+func Hash64(b []byte) uint64 {
+	h := uint64(14695981039346656037)
+	for _, c := range b {
+		h = (h ^ uint64(c)) * 1099511628211
+	}
+	return h
+}
+
+// Redeliver is the delivery clause of the codec checks: the bytes in, which
+// the real decoder was already given in one piece (outcome: accepted0, and
+// consumed0 bytes taken from the stream when accepted), are decoded again
+// from a stream that delivers them according to d; acceptance, value and the
+// number of bytes consumed must be those of the whole-buffer decode, because
+// what a message decodes to is a function of its bytes, not of how the
+// transport cut them. decode runs the real decoder on st and, when it
+// succeeds, returns the first wire field in which its value differs from the
+// whole-buffer value ("" = equal).
+//
+// sentinel: the whole-buffer decode read from a stream that continues with
+// sentinel bytes; the delivered one does too unless d.EOFWithData asks for a
+// closed stream. id is the property id, codec the decoder's name (signature).
+func Redeliver(v *vlib.Verdict, id, codec string, in []byte, sentinel bool, d Delivery, accepted0 bool, consumed0 int,
+	decode func(st *Stream) (field, detail string, err error)) {
+	d.Labels(v)
+	if d.Whole() {
+		return
+	}
+	st := &Stream{Data: in, Dlv: d, MaxEOFs: 1000}
+	if sentinel && !d.EOFWithData {
+		st.Sentinel, st.MaxSentinel = true, 1<<20
+	}
+	var field, detail string
+	var err error
+	if guardSpin(v, id, codec, func() { field, detail, err = decode(st) }) {
+		return
+	}
+	sig := id + ":delivery-changes-decoding:" + codec + ":"
+	how := fmt.Sprintf("delivery %s %+v", d.Name(), d)
+	switch {
+	case accepted0 && err != nil:
+		v.Failf(sig+"rejected", "%d bytes that decode when handed over in one piece are rejected under %s: %v (consumed %d)", len(in), how, err, st.Consumed)
+	case !accepted0 && err == nil:
+		v.Failf(sig+"accepted", "%d bytes that are rejected when handed over in one piece are accepted under %s (consumed %d)", len(in), how, st.Consumed)
+	case !accepted0:
+		// rejected both times
+	case field != "":
+		v.Failf(sig+field, "under %s field %s differs from the whole-buffer decode of the same %d bytes: %s (consumed %d instead of %d)", how, field, len(in), detail, st.Consumed, consumed0)
+	case st.Consumed != consumed0:
+		v.Failf(sig+"consumed", "under %s the decoder consumed %d bytes instead of %d (of %d)", how, st.Consumed, consumed0, len(in))
+	}
+}
 
 // ---------------------------------------------------------------------------
 // mutations as pure data
@@ -341,10 +605,34 @@ func AllocDuring(fn func()) uint64 {
 // decoder gives up after end-of-stream (at most 1000 further reads), and the
 // bytes allocated during the call stay within AllocBudget(len(in)).
 func DecoderCall(v *vlib.Verdict, decoder string, in []byte, call func(st *Stream)) {
-	st := &Stream{Data: in, MaxEOFs: 1000}
+	decoderCall(v, decoder, in, Delivery{}, call)
+}
+
+// DecoderCallDlv is DecoderCall with the bytes delivered according to d (short
+// reads, (0, nil) results, end-of-stream reported with the last bytes): the
+// same oracles must hold under every delivery pattern. The delivery class is
+// added to the labels of the case.
+func DecoderCallDlv(v *vlib.Verdict, decoder string, in []byte, d Delivery, call func(st *Stream)) {
+	d.Labels(v)
+	decoderCall(v, decoder, in, d, call)
+}
+
+// DecoderCallBoth runs the decoder call on in handed over in one piece and,
+// if that raised nothing and d is not the whole-buffer delivery, once more
+// with in delivered according to d.
+func DecoderCallBoth(v *vlib.Verdict, decoder string, in []byte, d Delivery, call func(st *Stream)) {
+	d.Labels(v)
+	decoderCall(v, decoder, in, Delivery{}, call)
+	if v.OK() && !d.Whole() {
+		decoderCall(v, decoder, in, d, call)
+	}
+}
+
+func decoderCall(v *vlib.Verdict, decoder string, in []byte, d Delivery, call func(st *Stream)) {
+	st := &Stream{Data: in, MaxEOFs: 1000, Dlv: d}
 	var panicked bool
 	alloc := AllocDuring(func() {
-		panicked = guardSpin(v, decoder, func() { call(st) })
+		panicked = guardSpin(v, "C11", decoder, func() { call(st) })
 	})
 	if panicked {
 		return
@@ -356,12 +644,12 @@ func DecoderCall(v *vlib.Verdict, decoder string, in []byte, call func(st *Strea
 
 // guardSpin is vlib.Guard plus recognition of the harness's own "reader never
 // gives up after EOF" panic.
-func guardSpin(v *vlib.Verdict, decoder string, fn func()) (panicked bool) {
+func guardSpin(v *vlib.Verdict, id, decoder string, fn func()) (panicked bool) {
 	defer func() {
 		if r := recover(); r != nil {
 			panicked = true
 			if s, ok := r.(string); ok && s == SpinPanic {
-				v.Failf("C11:no-progress-after-eof:"+decoder, "%s kept reading after 1000 end-of-stream results", decoder)
+				v.Failf(id+":no-progress-after-eof:"+decoder, "%s kept reading after 1000 end-of-stream results", decoder)
 				return
 			}
 			v.Failf(vlib.PanicSig(r, string(debug.Stack())), "panic: %v", r)
